@@ -11,11 +11,15 @@ Request line:  `id enc <op> key=value …`
     glwe_stream  bits n b k kxe size rank sk=<cols> xa=<raw words> e=<poly> [pt=<col>]   (mask drawn by the model)
     glwe_cmp     same keys as glwe_stream: compressed encryption followed by decompress_glwe
     fill_uniform b n size xa=<raw words>                                               (one column)
+    cmp_gglwe    bits n b kxe size rank rank_in dnum dsize sk=<cols> pt=<polys> top=<words> seeds=<4 words;…> child=<words;…> es=<polys>
+    cmp_ggsw     same with one plaintext polynomial; answer of both: `<seed words;…> <cell/cell/…>` in storage order
+                 (each cell = decompress_glwe of the stored (body, seed)); `seeds`/`child` is the table of `Source::new`
 Answer line:   `id <ciphertext columns> <decrypted plaintext column>` (enc ops),
                `id <columns>` (stream ops), `id panic` when the model reaches a Rust panic.
 -/
 import Poulpy.Driver.Util
 import Poulpy.Model.Core.Enc
+import Poulpy.Model.Core.EncMat
 
 namespace Drv.Enc
 open Drv
@@ -40,6 +44,30 @@ def kvPoly (ts : List String) (k : String) : Poly := kvInts ts k
 def kvPolys (ts : List String) (k : String) : List Poly := (kvCols ts k).map (fun c => c.getD 0 [])
 
 def natsOf (ts : List String) (k : String) : List Nat := kvNats ts k
+
+def kvWordLists (ts : List String) (k : String) : List (List Nat) :=
+  match kv ts k with
+  | none => []
+  | some s => if s == "-" || s.isEmpty then [] else (s.splitOn ";").map nats
+
+/-- `Source::new` as a table: the empty seed stands for `seed_xa` (stream `top`) -/
+def expandTable (top : List Nat) (seeds child : List (List Nat)) (s : List Nat) : List Nat :=
+  if s.isEmpty then top
+  else match (seeds.zip child).find? (fun p => p.1 == s) with
+    | some p => p.2
+    | none => []
+
+def showCells (b n rank count : Nat) (expand : List Nat → List Nat) (cells : List (Nat × Core.CellC)) : String :=
+  let stored := (List.range count).map (fun i => Core.storedCell cells i)
+  let seeds := stored.map (fun c => match c with
+    | some c => showNats c.seed
+    | none => "missing")
+  let objs := stored.map (fun c => match c with
+    | some c => (match Core.decompressCell b n rank expand c with
+      | some cols => showCols cols
+      | none => "panic")
+    | none => "missing")
+  ";".intercalate seeds ++ " " ++ "/".intercalate objs
 
 def handle (ts : List String) : String :=
   match ts with
@@ -92,6 +120,24 @@ def handle (ts : List String) : String :=
         match Core.decompressGlwe cc with
         | none => "panic"
         | some c => showCols c.cols
+    | "cmp_gglwe" =>
+      let top := natsOf ts "top"
+      let expand := expandTable top (kvWordLists ts "seeds") (kvWordLists ts "child")
+      let rankIn := kvNat ts "rank_in"
+      let dnum := kvNat ts "dnum"
+      match Core.gglweEncryptCompressed bits b n size kxe (kvNat ts "rank") rankIn dnum (kvNat ts "dsize") (kvPolys ts "pt")
+          (kvPolys ts "sk") expand [] (kvPolys ts "es") with
+      | none => "panic"
+      | some cells => showCells b n (kvNat ts "rank") (rankIn * dnum) expand cells
+    | "cmp_ggsw" =>
+      let top := natsOf ts "top"
+      let expand := expandTable top (kvWordLists ts "seeds") (kvWordLists ts "child")
+      let rank := kvNat ts "rank"
+      let dnum := kvNat ts "dnum"
+      match Core.ggswEncryptCompressed bits b n size kxe rank dnum (kvNat ts "dsize") ((kvPolys ts "pt").getD 0 [])
+          (kvPolys ts "sk") expand [] (kvPolys ts "es") with
+      | none => "panic"
+      | some cells => showCells b n rank ((rank + 1) * dnum) expand cells
     | "fill_uniform" =>
       match Sampling.vecFillUniform b n size (natsOf ts "xa") with
       | none => "panic"
